@@ -59,6 +59,12 @@ func fixedCases() []caseT {
 			{Op: "JSON", J: &jsnCase{Variant: 4, Code: 200, V: jv{K: "s", S: hx1("é")}}, FailAt: 1, Mode: 1},
 			{Op: "Stringf", F: &fmtCase{Code: 201, Format: hx1("<%s>"), Args: []argT{{K: "s", S: hx1("")}}}},
 		}}},
+		// Format: documented examples and an exclusion
+		{M: &fmtNegCase{Code: 200, Accept: "application/json", V: jv{K: "s", S: hx1("u")}}},
+		{M: &fmtNegCase{Code: 200, Accept: "text/html", V: jv{K: "s", S: hx1("u")}}},
+		{M: &fmtNegCase{Code: 200, Accept: "text/plain", V: jv{K: "i", I: 7}}},
+		{M: &fmtNegCase{Code: 201, Accept: "text/html;q=0, application/xml;q=0.3", V: jv{K: "s", S: hx1("u")}}},
+		{M: &fmtNegCase{Code: 200, Accept: "image/png", V: jv{K: "s", S: hx1("u")}}},
 		// escaper: BMP, astral, invalid
 		{J: &jsnCase{Variant: 4, Code: 200, V: jv{K: "s", S: hx1("Hello, سلام 😀 \xff")}}},
 		{J: &jsnCase{Variant: 3, Code: 200, V: jv{K: "a", A: []jv{{K: "i", I: 1}}}}},
